@@ -6,5 +6,7 @@ import LettreVerif.Props.C10
 #print axioms LV.C10.sevenbit_requested_ok
 #print axioms LV.C10.roundtrip_identity
 #print axioms LV.C10.roundtrip_quoted_printable
+#print axioms LV.C10.quoted_printable_lines
 #print axioms LV.C10.roundtrip_base64
+#print axioms LV.C10.base64_lines
 #print axioms LV.C10.refusal_matrix
